@@ -428,6 +428,9 @@ def handler_faults(sl):
         observe("the failure names the cause", "injected fault" in str(failures[0][2].message) + str(failures[0][2].cause))
         idx = new.index(failures[0])
         observe("nothing else is sent after the fault", idx == len(new) - 1)
+        # messages between two actors arrive in order: a failure that follows an exit request on the same channel finds nobody to relay it
+        observe("the failure is addressed to an actor that is still alive (no ActorExitRequest was sent to it before, FIFO per pair)",
+                not any(x[0] == failures[0][0] and x[1] == "ActorExitRequest" for x in new[:idx]))
     observe("no success-type message (BenchmarkComplete / Success / EngineStopped forwarded) is produced by a failed handler after the fault",
             not any(x[1] in ("Success",) for x in new))
 
@@ -451,9 +454,14 @@ def forwarding(sl):
         s = c01.materialise("seq2x2", (concrete(fresh_int("step", 0, 1)), False, (("run", 0, bool(fresh_bool("run_finished")), False, None), ("wait", 0, False, False, None))))
         s.da.status = ["init", "exiting"][concrete(fresh_int("driver_status", 0, 1))]
         wk = s.D.workers[0].addressDetails
+        # the failure being reported may be the death of the cluster: whatever still talks to the cluster fails from now on
+        s.D.telemetry.cluster_reachable = bool(fresh_bool("cluster_still_reachable"))
         msg = {"driver<-BenchmarkFailure": fail, "driver<-PoisonMessage": ta.PoisonMessage(driver.Drive(0), "details"),
                "driver<-BenchmarkCancelled": actor.BenchmarkCancelled(), "driver<-ChildActorExited(worker)": ta.ChildActorExited(s.addr[wk])}[kind]
-        s.da.receiveMessage(msg, s.addr[wk])
+        try:
+            s.da.receiveMessage(msg, s.addr[wk])
+        except Exception as e:  # noqa: BLE001 - Thespian would deliver the message once more and then poison the sender (a worker, which cannot help)
+            core.note("the driver's handler raised", repr(e))
         out = [(x[0], x[1]) for x in outgoing(s)]
         want = "BenchmarkCancelled" if kind.endswith("Cancelled") else "BenchmarkFailure"
         if kind.endswith("(worker)") and s.da.status == "exiting":
